@@ -20,16 +20,24 @@ import (
 var gArmed int32 // 1 while a PCT plan is installed
 
 type Plan struct {
-	Points []int64 // ascending yield indices at which the running task is pre-empted
-	next   int
-	Count  int64 // yields executed so far
-	Hits   int   // pre-emptions actually taken
-	Sites  []int // site ids at the taken pre-emptions
+	Points []int64 // ascending indices (over all yields) at which the running task is pre-empted
+	// PointsW: the same over the "interesting" yields only: statements that write
+	// a package-level variable, and the points right before Lock / right after Unlock
+	PointsW []int64
+	// SitePoints: pre-empt at the k-th execution of an interesting yield site
+	SitePoints map[int][]int64
+	SiteCount  map[int]int64 // executions per interesting site (filled while running)
+	next       int
+	nextW      int
+	Count      int64 // yields executed so far (all kinds)
+	CountW     int64 // interesting yields executed so far
+	Hits       int   // pre-emptions actually taken
+	Sites      []int // site ids at the taken pre-emptions
 }
 
 var plan *Plan
 
-// InstallPlan arms YieldG with a list of pre-emption points.
+// InstallPlan arms the yields with a list of pre-emption points.
 func InstallPlan(p *Plan) {
 	plan = p
 	if p != nil {
@@ -50,6 +58,45 @@ func YieldG(site int) {
 	p.Count++
 	if p.next < len(p.Points) && p.Count >= p.Points[p.next] {
 		p.next++
+		p.Hits++
+		p.Sites = append(p.Sites, site)
+		Yield(site)
+	}
+}
+
+// YieldW is a yield at an "interesting" point (see Plan.PointsW).
+func YieldW(site int) {
+	if atomic.LoadInt32(&gArmed) == 0 {
+		return
+	}
+	p := plan
+	if p == nil || cur == nil {
+		return
+	}
+	p.Count++
+	p.CountW++
+	hit := false
+	if p.next < len(p.Points) && p.Count >= p.Points[p.next] {
+		p.next++
+		hit = true
+	}
+	if p.nextW < len(p.PointsW) && p.CountW >= p.PointsW[p.nextW] {
+		p.nextW++
+		hit = true
+	}
+	if p.SiteCount == nil {
+		p.SiteCount = map[int]int64{}
+	}
+	p.SiteCount[site]++
+	if ks, ok := p.SitePoints[site]; ok {
+		c := p.SiteCount[site]
+		for _, k := range ks {
+			if k == c {
+				hit = true
+			}
+		}
+	}
+	if hit {
 		p.Hits++
 		p.Sites = append(p.Sites, site)
 		Yield(site)
